@@ -50,6 +50,7 @@ func (tb *TB) Apply(t *Term, args []*Term) *Term {
 	n.ID = 0
 	n.key = ""
 	n.hasBnd = false
+	n.open = false
 	return tb.mk(&n)
 }
 
